@@ -94,13 +94,11 @@ impl TimeWindow {
 
         self.events.push_back(event);
 
-        while self
-            .events
-            .front()
-            .is_some_and(|e| e.metadata.timestamp < self.start_time)
-        {
-            self.events.pop_front();
-        }
+        // Late (out-of-order) events can sit behind fresher ones, so evicting
+        // from the front only would keep them past the window.
+        let window_start = self.start_time;
+        self.events
+            .retain(|e| e.metadata.timestamp >= window_start);
         while self.events.len() > self.max_events {
             self.events.pop_front();
         }
